@@ -147,6 +147,10 @@ type Run struct {
 	// C19: schema constants that changed after a machine was created from them
 	SchemaMutated []string
 	SchemaUseRan  bool
+	// C14 bounded tracer-stream stand-in
+	TFailing []string
+	TTotal   int
+	TRan     bool
 	// C05 bounded handler-sequence stand-in
 	SFailing []string
 	STotal   int
@@ -302,6 +306,14 @@ func verifyRun(opts *RunOpts) (*Run, error) {
 			run.ExtraNotes = append(run.ExtraNotes, "bounded negotiation stand-in did not run: "+err.Error())
 		} else {
 			run.NegFailing, run.NegTotal, run.NegRan = f, total, true
+		}
+	}
+	if opts.Prop == "C14" {
+		f, total, err := runBoundedTracers(opts)
+		if err != nil {
+			run.ExtraNotes = append(run.ExtraNotes, "bounded tracer stand-in did not run: "+err.Error())
+		} else {
+			run.TFailing, run.TTotal, run.TRan = f, total, true
 		}
 	}
 	if opts.Prop == "C01" {
